@@ -1,5 +1,6 @@
 import PyCraft.Lemmas.Versions
 import PyCraft.Lemmas.VersionsCheck
+import PyCraft.Generated.Versions
 /-!
 # C08 — Protocol versions are totally ordered by publication; derived tables agree
 
@@ -460,5 +461,28 @@ theorem PyCraft.C08.model_eq_live : initKnown liveRecords = liveTables :=
 -- slow alternative (≈ 4 min): `:= by decide +kernel`
 ```
 -/
+
+/-- The model applied to the live version records reproduces the live module-level tables (known,
+supported, release names and numbers and the index map): a kernel-checked correspondence on the real
+data, re-established on every run from the regenerated `Generated/Versions.lean`. -/
+theorem model_eq_live : initKnown liveRecords = liveTables :=
+  checkTables_sound liveRecords liveTables (by decide +kernel)
+
+/-- Ordinary protocol numbers (without the 2^30 pre-release bit) appear in the chronological list in
+strictly increasing numeric order. -/
+theorem ordinary_numbers_monotone :
+    (liveTables.knownProtocols.filter (· < 2 ^ 30)).Pairwise (· < ·) := by decide +kernel
+
+/-- Pre-release numbers (2^30 bit set) are ordered by the list (publication) — and, on the live
+data, their low parts increase as well. -/
+theorem pre_numbers_monotone :
+    (liveTables.knownProtocols.filter (2 ^ 30 ≤ ·)).Pairwise (· < ·) := by decide +kernel
+
+/-- The supported protocol list is in chronological order: its ranks are strictly increasing. -/
+theorem supported_sorted_by_index :
+    (liveTables.supportedProtocols.map fun v => (liveTables.knownProtocols.idxOf v)).Pairwise (· < ·) := by
+  decide +kernel
+
+example : liveRecords.length ≥ 400 ∧ liveTables.knownProtocols.length ≥ 300 := by decide +kernel
 
 end PyCraft.C08
